@@ -48,6 +48,11 @@ Proof. split; [reflexivity|split; [reflexivity|]]. vm_compute. intro H; discrimi
 Theorem C09_no_stale_buffer_pointer : stream_stale_pointer = [] /\ stream_pointer_holders <> 0%nat.
 Proof. split; [reflexivity|]. vm_compute. intro H; discriminate H. Qed.
 
+(* a refill that lands right behind a backslash leaves the scanner on the escaped character (translator rule R4; the
+   repaired defect "unknown struct key with an escape cut by the reader" is the place this list had) *)
+Theorem C09_escaped_character_not_reexamined : stream_escape_reexamined = [].
+Proof. reflexivity. Qed.
+
 (* instance run against the implementation by the harness (op c09.bool): a number cut short by a failing reader *)
 Example C09_ex_bool :
   bool_decode [32; 116; 114; 117; 101; 32] [2; 3]%nat = Value bres (BAccept (Some true)) 5%nat /\
